@@ -1,4 +1,5 @@
 pub mod cup;
+pub mod resp;
 pub mod time;
 pub mod version;
 pub mod wire_req;
